@@ -88,6 +88,9 @@ func init() {
 		addRules(prop, rMembershipScan(x[0], x[1]))
 	}
 	addRules("C01", rValidValuesGrow("R01.30"))
+	addRules("C07", func(w *World, r *Report) {
+		subRule(w, r, rC01ParserArgs, "R07.21", "`-abc=v` is `-a -b -c=v`: every option of a bundle is saved with its own attached value - what the parser hands to Save is the attached value of the pair at hand or the current token, unmodified (same obligations as C01 R01.3)", 3)
+	})
 	addRules("C14", rDeclarationTouchesTask("R14.18", "a task given to the graph is a task of the graph: its failure is reported"), rTaskFnCheckedFirst("R14.19"))
 	addRules("C16", rDeclarationTouchesTask("R16.27", "a task given to the graph - through TaskDependsOn with no dependencies too - is registered, so it gets started and sorted"), rSortedAsBuilt("R16.28"))
 	addRules("C18", rHelpDescribesReached("R18.24"))
@@ -918,16 +921,174 @@ func rHandDownCallers(id, why string) func(w *World, r *Report) {
 					top = top.Parent()
 				}
 				n := short(top)
+				// the walkers HelpCommand runs over the tree are part of HelpCommand; the closures other API functions hand
+				// out (modifiers, command functions) run later, at a time of the program's choosing
 				good := n == "(*getoptions.GetOpt).NewCommand" || n == "(*getoptions.GetOpt).HelpCommand" || top == fn
 				if good && caller.Parent() != nil && n != "(*getoptions.GetOpt).HelpCommand" {
-					good = false
-				}
-				if good && caller.Parent() != nil {
-					// inside HelpCommand only its own body may call it, not the closures it hands out
 					good = false
 				}
 				ru.Check(good, "caller/"+short(caller), w.IPos(c), "expected caller", short(caller)+" hands the options of a level down to the commands that already exist: the tables the parser consults are no longer the ones built when the commands were created")
 			}
 		}
 	}
+}
+
+// rHelpNameBeforeHandDown (R11.28): the help node is recognised before options are handed down.
+func rHelpNameBeforeHandDown(id string) func(w *World, r *Report) {
+	return func(w *World, r *Report) {
+		ru := r.Rule(id, "help is served without asking for required options because the help node inherits nothing: the option copy skips the child whose name is the parent's HelpCommandName, so inside HelpCommand every call that hands options down (copyOptionsFromParent) comes after the store of HelpCommandName on the existing nodes - a node created and handed options first is not recognised as the help node and inherits its level's required options", 1)
+		fnH := w.Fn("(*getoptions.GetOpt).HelpCommand")
+		cp := w.Fn("getoptions.copyOptionsFromParent")
+		if fnH == nil || cp == nil {
+			ru.Undecided("anchor", "-", "HelpCommand or copyOptionsFromParent not found")
+			return
+		}
+		family := funcsWithAnon(fnH)
+		inFamily := func(f *ssa.Function) bool {
+			for _, g := range family {
+				if g == f {
+					return true
+				}
+			}
+			return false
+		}
+		closuresOf := func(in ssa.Instruction) []*ssa.Function {
+			var out []*ssa.Function
+			var ops []*ssa.Value
+			for _, op := range in.Operands(ops) {
+				if op == nil || *op == nil {
+					continue
+				}
+				switch x := (*op).(type) {
+				case *ssa.MakeClosure:
+					if f, ok := x.Fn.(*ssa.Function); ok && inFamily(f) {
+						out = append(out, f)
+					}
+				case *ssa.Function:
+					if inFamily(x) {
+						out = append(out, x)
+					}
+				}
+			}
+			return out
+		}
+		var hasS, hasC func(f *ssa.Function, d int) bool
+		directS := func(in ssa.Instruction) bool {
+			st, ok := in.(*ssa.Store)
+			if !ok {
+				return false
+			}
+			fa, ok := st.Addr.(*ssa.FieldAddr)
+			if !ok || fieldOfAddr(fa).Name() != "HelpCommandName" || !isTreePtr(fa.X.Type()) {
+				return false
+			}
+			_, fresh := rootOfAddr(fa.X).(*ssa.Alloc)
+			return !fresh
+		}
+		directC := func(in ssa.Instruction) bool {
+			c, ok := in.(ssa.CallInstruction)
+			return ok && staticCallee(c) == cp
+		}
+		hasS = func(f *ssa.Function, d int) bool {
+			found := false
+			eachInstr(f, func(in ssa.Instruction) {
+				if directS(in) {
+					found = true
+				}
+				if _, isCall := in.(ssa.CallInstruction); isCall && d < 3 {
+					for _, g := range closuresOf(in) {
+						if g != f && hasS(g, d+1) {
+							found = true
+						}
+					}
+				}
+			})
+			return found
+		}
+		hasC = func(f *ssa.Function, d int) bool {
+			found := false
+			eachInstr(f, func(in ssa.Instruction) {
+				if directC(in) {
+					found = true
+				}
+				if _, isCall := in.(ssa.CallInstruction); isCall && d < 3 {
+					for _, g := range closuresOf(in) {
+						if g != f && hasC(g, d+1) {
+							found = true
+						}
+					}
+				}
+			})
+			return found
+		}
+		n := 0
+		var check func(f *ssa.Function, covered bool)
+		check = func(f *ssa.Function, covered bool) {
+			var sPts, cPts []ssa.Instruction
+			eachInstr(f, func(in ssa.Instruction) {
+				isS, isC := directS(in), directC(in)
+				if _, isCall := in.(ssa.CallInstruction); isCall {
+					for _, g := range closuresOf(in) {
+						if hasS(g, 0) {
+							isS = true
+						}
+						if hasC(g, 0) {
+							isC = true
+						}
+					}
+				}
+				if isS {
+					sPts = append(sPts, in)
+				}
+				if isC {
+					cPts = append(cPts, in)
+				}
+			})
+			before := func(c ssa.Instruction) bool {
+				for _, s := range sPts {
+					if s == c {
+						continue
+					}
+					if s.Block() == c.Block() {
+						for _, in := range s.Block().Instrs {
+							if in == s {
+								return true
+							}
+							if in == c {
+								break
+							}
+						}
+					} else if s.Block().Dominates(c.Block()) {
+						return true
+					}
+				}
+				return false
+			}
+			for _, c := range cPts {
+				ok := covered || before(c)
+				if directC(c) {
+					n++
+					ru.Check(ok, "hand-down/"+short(f), w.IPos(c), "after HelpCommandName is known", "options are handed down in "+short(f)+" before HelpCommandName has been stored on the nodes: the help node just created is not skipped by the copy and inherits the required options of its level - `help` then fails with a missing-required error")
+				}
+				for _, g := range closuresOf(c) {
+					if g != f && hasC(g, 0) {
+						check(g, ok)
+					}
+				}
+			}
+		}
+		check(fnH, false)
+		if n == 0 {
+			ru.Bad("hand-down", w.Pos(fnH.Pos()), "HelpCommand never hands the options down")
+		}
+	}
+}
+
+func init() { addRules("C11", rHelpNameBeforeHandDown("R11.28")) }
+
+// `--name=` (nothing behind the sign) attaches nothing, so the option takes the next word: the level completion reaches
+// for the words already typed depends on it (C17), and so does the command Dispatch runs (C10).
+func init() {
+	addRules("C17", rArgsOnlyNonEmpty("R17.24"))
+	addRules("C10", rArgsOnlyNonEmpty("R10.27"))
 }
